@@ -216,3 +216,199 @@ func VerifH15() {
 		vReach("with-authentication")
 	}
 }
+
+// ---------------------------------------------------------------------------
+// H15f — the conflict-freedom lemma on the less travelled paths (C15): each
+// connection's traffic optionally contains an oversized message (skipped), a
+// message of unknown type, a Bind to an unknown statement (error, then
+// discard until Sync) and a COPY-in cycle, around an ordinary extended-query
+// round. Oracle for the transcripts: the same traffic served ALONE by a fresh
+// server with the same configuration (the property's own wording); oracle for
+// shared memory: the footprint lemma, replayed under the race detector.
+// ---------------------------------------------------------------------------
+type vIsoTraffic struct {
+	over, unknown, bad, copy bool
+}
+
+func vFaultTraffic(user, name []byte, t vIsoTraffic) []byte {
+	sync := vMsgBytes('S', nil)
+	in := vStartup(vKV([]byte("user"), user))
+	if t.over {
+		in = vCat(in, vMsgBytes('Q', make([]byte, 70)))
+	}
+	in = vCat(in, vMsgBytes('P', vCat(vCStr(name), vCStr([]byte("q")), vU16(0))), sync)
+	if t.unknown {
+		in = vCat(in, vMsgBytes('z', []byte{1, 2}))
+	}
+	if t.bad {
+		in = vCat(in, vMsgBytes('B', vCat(vCStr(name), vCStr([]byte("nope")), vU16(0), vU16(0), vU16(0))),
+			vMsgBytes('E', vCat(vCStr(name), vU32(0))), sync)
+	}
+	if t.over {
+		in = vCat(in, vMsgBytes('d', make([]byte, 65)))
+	}
+	in = vCat(in,
+		vMsgBytes('B', vCat(vCStr(name), vCStr(name), vU16(0), vU16(0), vU16(0))),
+		vMsgBytes('D', vCat([]byte{'S'}, vCStr(name))),
+		vMsgBytes('E', vCat(vCStr(name), vU32(0))), sync)
+	if t.copy {
+		in = vCat(in, vMsgBytes('Q', vCStr([]byte("c"))), vMsgBytes('d', vCat(user, []byte("\n"))), vMsgBytes('c', nil))
+	}
+	return vCat(in, vMsgBytes('X', nil))
+}
+
+type vIsoTrace struct {
+	queries [][]byte
+	copied  [][]byte
+	execs   int
+}
+
+func vIsoServer(tr *[2]vIsoTrace) *Server {
+	parse := func(ctx context.Context, query string) (PreparedStatements, error) {
+		me := &tr[RemoteAddress(ctx).(vAddr).id]
+		me.queries = append(me.queries, []byte(query))
+		isCopy := query == "c"
+		fn := func(ctx context.Context, dw DataWriter, params []Parameter) error {
+			me.execs++
+			if isCopy {
+				cr, err := dw.CopyIn(TextFormat)
+				if err != nil {
+					return err
+				}
+				for k := 0; k < 3; k++ {
+					if err := cr.Read(); err != nil {
+						break
+					}
+					me.copied = append(me.copied, append([]byte{}, cr.Msg...))
+				}
+				return dw.Complete("COPY")
+			}
+			if err := dw.Row([]any{"v"}); err != nil {
+				return err
+			}
+			return dw.Complete("T")
+		}
+		return Prepared(NewStatement(fn, WithColumns(vTextColumns(1)))), nil
+	}
+	srv, err := NewServer(parse, MessageBufferSize(64))
+	vAssert("newserver-ok", err == nil)
+	return srv
+}
+
+func vSameTrace(a, b *vIsoTrace) bool {
+	if a.execs != b.execs || len(a.queries) != len(b.queries) || len(a.copied) != len(b.copied) {
+		return false
+	}
+	for i := range a.queries {
+		if !vEqBytes(a.queries[i], b.queries[i]) {
+			return false
+		}
+	}
+	for i := range a.copied {
+		if !vEqBytes(a.copied[i], b.copied[i]) {
+			return false
+		}
+	}
+	return true
+}
+
+// vSameTranscript: equal frame for frame, except that the ParameterStatus
+// frames are compared as a set.
+func vSameTranscript(a, b []byte) bool {
+	ma, oka := vFrames(a)
+	mb, okb := vFrames(b)
+	if !oka || !okb || len(ma) != len(mb) {
+		return false
+	}
+	var ra, rb, sa, sb []vMsg
+	for _, m := range ma {
+		if m.typ == 'S' {
+			sa = append(sa, m)
+		} else {
+			ra = append(ra, m)
+		}
+	}
+	for _, m := range mb {
+		if m.typ == 'S' {
+			sb = append(sb, m)
+		} else {
+			rb = append(rb, m)
+		}
+	}
+	if len(ra) != len(rb) || len(sa) != len(sb) {
+		return false
+	}
+	for i := range ra {
+		if ra[i].typ != rb[i].typ || !vEqBytes(ra[i].body, rb[i].body) {
+			return false
+		}
+	}
+	for _, x := range sa {
+		found := false
+		for _, y := range sb {
+			if vEqBytes(x.body, y.body) {
+				found = true
+			}
+		}
+		if !found {
+			return false
+		}
+	}
+	return true
+}
+
+func VerifH15f() {
+	name := vSymName()
+	u1, u2 := vSymText(1), vSymText(1)
+	t1 := vIsoTraffic{nondetBool(), nondetBool(), nondetBool(), nondetBool()}
+	t2 := vIsoTraffic{nondetBool(), nondetBool(), nondetBool(), nondetBool()}
+	in1, in2 := vFaultTraffic(u1, name, t1), vFaultTraffic(u2, name, t2)
+
+	var shared [2]vIsoTrace
+	srv := vIsoServer(&shared)
+	c1 := vNewConn(in1)
+	c2 := vNewConn(in2)
+	c2.id = 1
+	if vRaceMode() {
+		var wg sync.WaitGroup
+		wg.Add(2)
+		go func() { defer wg.Done(); srv.serve(context.Background(), c1) }() //nolint
+		go func() { defer wg.Done(); srv.serve(context.Background(), c2) }() //nolint
+		wg.Wait()
+		return
+	}
+	vFootBegin()
+	vOrigin("conn1")
+	srv.serve(context.Background(), c1) //nolint
+	vOrigin("conn2")
+	srv.serve(context.Background(), c2) //nolint
+	vOrigin("")
+	vFootReport("no-unsynchronised-shared-access", "KF-C15-1")
+
+	// the same traffic, each connection alone on a fresh server
+	var alone1, alone2 [2]vIsoTrace
+	a1 := vNewConn(in1)
+	vIsoServer(&alone1).serve(context.Background(), a1) //nolint
+	a2 := vNewConn(in2)
+	a2.id = 1
+	vIsoServer(&alone2).serve(context.Background(), a2) //nolint
+
+	vAssert("wire-1-wellformed", vWireOK(c1.out))
+	vAssert("wire-2-wellformed", vWireOK(c2.out))
+	// (ParameterStatus messages are written in map order, which Go randomises:
+	// they are compared as a sorted set, everything else byte for byte)
+	vAssert("conn1-transcript-as-if-alone", vSameTranscript(c1.out, a1.out))
+	vAssert("conn2-transcript-as-if-alone", vSameTranscript(c2.out, a2.out))
+	vAssert("conn1-callbacks-as-if-alone", vSameTrace(&shared[0], &alone1[0]))
+	vAssert("conn2-callbacks-as-if-alone", vSameTrace(&shared[1], &alone2[1]))
+	vAssert("served-to-the-end", vCount(vTypes(c1.out), 'Z') >= 3 && vCount(vTypes(c2.out), 'Z') >= 3)
+	if t1.over && t2.over {
+		vReach("both-skip-an-oversized-message")
+	}
+	if t1.copy && t2.copy {
+		vReach("both-copy-in")
+	}
+	if t1.bad && t2.bad {
+		vReach("both-discard-until-sync")
+	}
+}
